@@ -19,9 +19,30 @@ type normOpts struct {
 	DropPadding  bool
 }
 
+// ratToken: every finite non-zero number is compared by its exact mathematical value, whatever
+// kind of event carried it (an integral float written by CTE as "-1" reads back as an integer;
+// float 0.0 is the small integer 0 in CBE).  A finite binary float is determined by its value,
+// so this is bit-exactness for floats and equality by value for integers and decimals.
+func ratToken(r *big.Rat) string {
+	if r.Sign() == 0 {
+		return "Z:+"
+	}
+	return "N:" + r.RatString()
+}
+
 func reduceDec(coef *big.Int, exp int64) string {
 	if coef.Sign() == 0 {
 		return "Z:+"
+	}
+	if exp > -5000 && exp < 5000 {
+		r := new(big.Rat).SetInt(coef)
+		p := new(big.Int).Exp(big.NewInt(10), big.NewInt(absInt64(exp)), nil)
+		if exp >= 0 {
+			r.Mul(r, new(big.Rat).SetInt(p))
+		} else {
+			r.Quo(r, new(big.Rat).SetInt(p))
+		}
+		return ratToken(r)
 	}
 	c := new(big.Int).Set(coef)
 	ten := big.NewInt(10)
@@ -52,7 +73,7 @@ func normNumber(e AEv) string {
 			}
 			return "Z:+"
 		}
-		return "I:" + e.K
+		return ratToken(new(big.Rat).SetInt(parseBigInt(e.K)))
 	case "OnFloat":
 		f := parseF64Key(e.K)
 		return normF64(f)
@@ -67,6 +88,9 @@ func normNumber(e AEv) string {
 		f, acc := bf.Float64()
 		if acc == big.Exact {
 			return normF64(f)
+		}
+		if r, _ := bf.Rat(nil); r != nil {
+			return ratToken(r)
 		}
 		return "BF:" + bf.Text('p', 0)
 	case "OnDecimalFloat":
@@ -115,7 +139,16 @@ func normF64(f float64) string {
 	case math.IsInf(f, -1):
 		return "Inf:-"
 	}
-	return fmt.Sprintf("F:%016x", math.Float64bits(f))
+	r := new(big.Rat)
+	r.SetFloat64(f)
+	return ratToken(r)
+}
+
+func absInt64(v int64) int64 {
+	if v < 0 {
+		return -v
+	}
+	return v
 }
 
 // normStream returns one canonical token per data item.
@@ -172,7 +205,7 @@ func normStream(evs []AEv, o normOpts) []string {
 			if atBits(e.AT) == 8 {
 				n = len(e.Bytes)
 			}
-			out = append(out, fmt.Sprintf("A:%s:%d:%s", e.AT, n, hex.EncodeToString(intsToBytes(e.Bytes))))
+			out = append(out, arrayToken(e.AT, e.AT, n, intsToBytes(e.Bytes)))
 		case "OnMedia":
 			out = append(out, fmt.Sprintf("A:media(%s):%d:%s", e.MT, len(e.Bytes), hex.EncodeToString(intsToBytes(e.Bytes))))
 		case "OnCustomBinary":
@@ -198,7 +231,7 @@ func normStream(evs []AEv, o normOpts) []string {
 			if arr != nil {
 				arr.elems += e.N
 				if !e.More && e.N == 0 {
-					out = append(out, fmt.Sprintf("A:%s:%d:%s", arr.head, arr.elems, hex.EncodeToString(arr.data)))
+					out = append(out, arrayToken(arr.head, strings.TrimSuffix(arr.at, "!"), arr.elems, arr.data))
 					arr = nil
 				} else if !e.More {
 					arr.at += "!" // final chunk announced; closes when its bytes are in
@@ -209,7 +242,7 @@ func normStream(evs []AEv, o normOpts) []string {
 				arr.data = append(arr.data, intsToBytes(e.Bytes)...)
 				at := strings.TrimSuffix(arr.at, "!")
 				if strings.HasSuffix(arr.at, "!") && uint64(len(arr.data)) >= atByteCount(at, uint64(arr.elems)) {
-					out = append(out, fmt.Sprintf("A:%s:%d:%s", arr.head, arr.elems, hex.EncodeToString(arr.data)))
+					out = append(out, arrayToken(arr.head, at, arr.elems, arr.data))
 					arr = nil
 				}
 			}
@@ -219,6 +252,45 @@ func normStream(evs []AEv, o normOpts) []string {
 		out = append(out, fmt.Sprintf("A?:%s:%d:%s", arr.head, arr.elems, hex.EncodeToString(arr.data)))
 	}
 	return out
+}
+
+// arrayToken: float arrays are compared element by element by value (an untyped unmarshal
+// hands a float16 array back as []float32); every other array by type, count and bytes.
+func arrayToken(head, at string, n int, data []byte) string {
+	w := 0
+	switch at {
+	case "af16":
+		w = 2
+	case "af32":
+		w = 4
+	case "af64":
+		w = 8
+	}
+	if w == 0 || len(data) != n*w {
+		return fmt.Sprintf("A:%s:%d:%s", head, n, hex.EncodeToString(data))
+	}
+	var parts []string
+	for i := 0; i < n; i++ {
+		var bits uint64
+		for b := w - 1; b >= 0; b-- {
+			bits = bits<<8 | uint64(data[i*w+b])
+		}
+		var f float64
+		switch w {
+		case 2:
+			f = float64(math.Float32frombits(uint32(bits) << 16))
+		case 4:
+			f = float64(math.Float32frombits(uint32(bits)))
+		default:
+			f = math.Float64frombits(bits)
+		}
+		if math.IsNaN(f) {
+			parts = append(parts, "NaN")
+		} else {
+			parts = append(parts, normF64(f))
+		}
+	}
+	return fmt.Sprintf("AF:%d:%s", n, strings.Join(parts, ","))
 }
 
 func sameTokens(a, b []string) (bool, int) {
